@@ -11,7 +11,7 @@ var propC03 = &simProp{
 	ID: "C03",
 	Profile: func() sim.Profile {
 		p := safetyProfile("C03")
-		p.Patterns = []string{"reads", "reads", "free", "free", "P1", "P1", "P2", "P3", "P4b", "P5", "P6", "P8", "P22", "P11", "P12", "stopstart"}
+		p.Patterns = []string{"reads", "reads", "free", "free", "P1", "P1", "P2", "P3", "P4b", "P5", "P6", "P8", "P22", "P11", "P12", "stopstart", "P34", "P34"}
 		p.Timeouts = []int{1, 20, 50, 200, 500, 2000}
 		return p
 	}(),
@@ -71,7 +71,8 @@ var propC04 = &simProp{
 	ID: "C04",
 	Profile: func() sim.Profile {
 		p := safetyProfile("C04")
-		p.Patterns = []string{"P6", "P6", "P6", "P11", "P11", "P11", "free", "free", "P1", "P12", "P8", "P22", "P22", "stopstart", "reads"}
+		p.Patterns = []string{"P6", "P6", "P6", "P11", "P11", "P11", "free", "free", "P1", "P12", "P8", "P22", "P22", "stopstart", "reads"} // (no P7/P33: snapshots are off here)
+		p.Snapshots = ""                                                                                                                    // the property quantifies with snapshots off (crash points of compaction and snapshot writes belong to C14)
 		p.DiskCheck = true
 		return p
 	}(),
